@@ -232,7 +232,14 @@ fn carried_messages<B: SimField, H: ElementHasher<BaseField = B>>(case: &Case<B>
             }
         }
         out.push(("hash of OOD trace frame", H::hash_elements(&carried).as_bytes().to_vec()));
-        out.push(("hash of OOD constraint evaluations", H::hash_elements(&ood_evals).as_bytes().to_vec()));
+        // likewise the constraint evaluations: the third blob of the frame
+        let _ = ood_evals;
+        let l3 = u16::from_le_bytes([ob[4 + l1 + l2], ob[5 + l1 + l2]]) as usize;
+        let mut evals: Vec<E> = vec![];
+        for c in ob[6 + l1 + l2..6 + l1 + l2 + l3].chunks(E::ELEMENT_BYTES) {
+            evals.push(E::read_from_bytes(c).map_err(|e| format!("OOD constraint evaluation does not parse: {e}"))?);
+        }
+        out.push(("hash of OOD constraint evaluations", H::hash_elements(&evals).as_bytes().to_vec()));
         for (i, r) in froots.iter().enumerate() {
             out.push((if i + 1 == froots.len() { "FRI remainder commitment" } else { "FRI layer commitment" }, r.as_bytes().to_vec()));
         }
